@@ -517,6 +517,40 @@ func checkC03(c *Ctx) {
 			c.Sample(obj{"file": f.Path, "perturbations": perFile})
 		}
 	})
+	// systematic part: every template fragment with a block comment behind every token, and behind every
+	// second token (both parities): comments at every place the decorator can meet one
+	if tsrc, err := templateSrc(); err == nil {
+		if ms, err := miniFiles(tsrc); err == nil {
+			type gj struct {
+				mi, off, step int
+				src           []byte
+			}
+			var gjs []gj
+			for mi, m := range ms {
+				var buf bytes.Buffer
+				if decorator.Fprint(&buf, m) != nil {
+					continue
+				}
+				for _, v := range [][2]int{{0, 1}, {0, 2}, {1, 2}} {
+					gjs = append(gjs, gj{mi, v[0], v[1], numberedComments(buf.Bytes(), v[0], v[1])})
+				}
+			}
+			parallel(len(gjs), func(i int) {
+				g := gjs[i]
+				key := fmt.Sprintf("template-fragment-%d|comment-every-%d-from-%d", g.mi, g.step, g.off)
+				sig, what := c03Judge(g.src)
+				c.Eval(key, true)
+				if sig != "" {
+					in := key
+					if sig == "generic-alias-comment-order" {
+						in = "generic-alias|" + key
+					}
+					c.Fail(Finding{Sig: sig, Input: in, What: key + ": " + what, Replay: obj{"kind": "c03src", "src": string(g.src)}})
+				}
+			})
+			c.Set("systematic_comment_inputs", len(gjs))
+		}
+	}
 	// model-level conservation on the real fragment lists of perturbed snippets (Link.tla, property layer)
 	var items []traceItem
 	for i := range snips {
@@ -602,4 +636,25 @@ func hasGenericAlias(src []byte) bool {
 		return !found
 	})
 	return found
+}
+
+// numberedComments inserts " /*gN*/" behind every step-th token of src (N = token index).
+func numberedComments(src []byte, off, step int) []byte {
+	ends, _ := tokenEnds(src)
+	at := map[int]string{}
+	for k, e := range ends {
+		if k%step == off && k != len(ends)-1 {
+			at[e] = fmt.Sprintf(" /*g%d*/", k)
+		}
+	}
+	return insertText(src, at)
+}
+
+func init() {
+	replayers["c03src"] = func(raw json.RawMessage) string {
+		var r struct{ Src string }
+		json.Unmarshal(raw, &r)
+		_, what := c03Judge([]byte(r.Src))
+		return what
+	}
 }
